@@ -1,5 +1,8 @@
 import PyrexVerif.D.Detector
+import PyrexVerif.F.Header
 import PyrexVerif.F.Ice
+import PyrexVerif.Props.C16
 import PyrexVerif.Props.C19
+import PyrexVerif.R.Header
 import PyrexVerif.R.Ice
 import PyrexVerif.Util.Proto
